@@ -4,7 +4,8 @@ from pyvc.rt import *  # noqa: F401,F403
 PROPERTY = "C19"
 USES_NX = True
 UT = "synkit/CRN/Props/utils.py"
-CLASSES = {}
+DF = "synkit/CRN/Props/deficiency.py"
+CLASSES = {"DeficiencyAnalyzer": {"file": DF, "fields": {}}}
 TRUSTED = ["A-nx-graph", "A-builtins (sorted: permutation ordered by key, stable; str() of a label uninterpreted)"]
 ASSUMPTIONS = ["A-linalg: exact rank (floating point / SVD tolerances are not modelled)",
                "complex-vector bookkeeping (_complex_vectors), linkage classes and the deficiency formula are checked by the "
@@ -19,6 +20,20 @@ def is_species(G, n):
 
 def is_reaction(G, n):
     return (not is_species(G, n)) and (G.nodes[n].get("kind") == "reaction" or G.nodes[n].get("bipartite", None) == 1)
+
+
+def coef(G, a, b, role):
+    """contribution of the arc a -> b (if present, with that role) to a complex vector"""
+    return int(G[a][b].get("stoich", 1)) if (G.has_edge(a, b) and G[a][b].get("role") == role) else 0
+
+
+def Lc(G, r, s):
+    """reactant coefficient of species s in reaction r (arcs in either direction carry a role)"""
+    return coef(G, s, r, "reactant") + coef(G, r, s, "reactant")
+
+
+def Rc(G, r, s):
+    return coef(G, s, r, "product") + coef(G, r, s, "product")
 
 
 def label_of(G, n):
@@ -57,6 +72,7 @@ FUNCTIONS = {
             "forall((range(len(result[0])), range(len(result[0]))), lambda i, j: implies(i != j, not same(result[0][i], result[0][j])))",
             # labels and index follow that order
             "len(result[1]) == len(result[0])",
+            "len(result[2]) == len(result[0])",
             "forall(range(len(result[0])), lambda i: result[1][i] == label_of(G, result[0][i]) and result[2][result[0][i]] == i)",
             "forall('any', lambda n: (n in result[2]) == exists(range(len(result[0])), lambda i: same(result[0][i], n)))",
             # ordered by label
@@ -64,8 +80,71 @@ FUNCTIONS = {
         ],
         "loops": {1: {"inv": [
             "len(species_labels) == done",
+            "forall((range(len(species_nodes_sorted)), range(len(species_nodes_sorted))), lambda i, j: implies(i != j, not same(species_nodes_sorted[i], species_nodes_sorted[j])))",
+            "len(species_index) == done",
             "forall(range(done), lambda i: species_labels[i] == label_of(G, species_nodes_sorted[i]) and species_index[species_nodes_sorted[i]] == i)",
             "forall('any', lambda n: (n in species_index) == exists(range(done), lambda i: same(species_nodes_sorted[i], n)))",
         ]}},
+    },
+    DF + "::DeficiencyAnalyzer._complex_vectors": {
+        "params": {"G": "obj:DiGraph"},
+        "vars": {"idx_map": "dict[list[int],int]", "complexes": "list[list[int]]", "lhs": "list[int]", "rhs": "list[int]",
+                 "lix": "list[int]", "rix": "list[int]"},
+        "returns": "tuple[list[list[int]],dict[list[int],int],obj:DiGraph]",
+        "requires": ["exists(G.nodes, lambda n: is_species(G, n))", "exists(G.nodes, lambda n: is_reaction(G, n))",
+                     "forall(G.edges, lambda a, b: isinstance(G[a][b].get('stoich', 1), int) and not isinstance(G[a][b].get('stoich', 1), bool))",
+                     "forall(G.nodes, lambda r: not G.has_edge(r, r))"],
+        "modifies": [],
+        "ensures": ["is_fresh(result[2])",
+                    "forall(range(len(result[0])), lambda k: result[0][k] in result[1] and result[1][result[0][k]] == k)",
+                    "forall(result[1], lambda vec: 0 <= result[1][vec] and result[1][vec] < len(result[0]) and same(result[0][result[1][vec]], vec))",
+                    "forall('int', lambda k: result[2].has_node(k) == (0 <= k and k < len(result[0])))"],
+        "ghost_ensures": [
+            "len(lix) == len(reaction_nodes) and len(rix) == len(reaction_nodes)",
+            "forall(range(len(reaction_nodes)), lambda j: 0 <= lix[j] and lix[j] < len(result[0]) and 0 <= rix[j] and rix[j] < len(result[0]) and result[2].has_edge(lix[j], rix[j]))",
+            "forall(range(len(reaction_nodes)), lambda j: forall(range(n_s), lambda i: result[0][lix[j]][i] == Lc(G, reaction_nodes[j], _species_nodes[i]) "
+            "and result[0][rix[j]][i] == Rc(G, reaction_nodes[j], _species_nodes[i])))",
+            "forall(result[2].edges, lambda a, b: exists(range(len(reaction_nodes)), lambda j: a == lix[j] and b == rix[j]))",
+        ],
+        "loops": {
+            1: {"modifies": ["CG.nodes", "CG.nattr", "CG.adj", "CG.eattr"],
+                "ghost_init": ["lix = []", "rix = []"],
+                "ghost_step": ["lix.append(u_idx)", "rix.append(v_idx)"],
+                "inv": [
+                    "len(lix) == done and len(rix) == done",
+                    "n_s == len(_species_nodes)",
+                    "forall(range(n_s), lambda i: _species_nodes[i] in species_index and species_index[_species_nodes[i]] == i)",
+                    "forall(species_index, lambda n: 0 <= species_index[n] and species_index[n] < n_s and same(_species_nodes[species_index[n]], n))",
+                    "forall(range(len(reaction_nodes)), lambda j: G.has_node(reaction_nodes[j]) and reaction_nodes[j] not in species_index)",
+                    # the index map and the list of complexes are mutually inverse
+                    "forall(range(len(complexes)), lambda k: len(complexes[k]) == n_s and complexes[k] in idx_map and idx_map[complexes[k]] == k)",
+                    "forall(idx_map, lambda vec: 0 <= idx_map[vec] and idx_map[vec] < len(complexes) and same(complexes[idx_map[vec]], vec))",
+                    "forall('int', lambda k: CG.has_node(k) == (0 <= k and k < len(complexes)))",
+                    # every processed reaction has its reactant and product complex in the list, joined by an arc of the complex graph
+                    "forall(range(done), lambda j: 0 <= lix[j] and lix[j] < len(complexes) and 0 <= rix[j] and rix[j] < len(complexes) and CG.has_edge(lix[j], rix[j]))",
+                    "forall(range(done), lambda j: forall(range(n_s), lambda i: complexes[lix[j]][i] == Lc(G, reaction_nodes[j], _species_nodes[i]) "
+                    "and complexes[rix[j]][i] == Rc(G, reaction_nodes[j], _species_nodes[i])))",
+                    "forall(CG.edges, lambda a, b: exists(range(done), lambda j: a == lix[j] and b == rix[j]))",
+                ]},
+            2: {"step_hints": [
+                    "(same(u, r) or same(v, r)) and not (same(u, r) and same(v, r)) and G.has_edge(u, v)",
+                    "G.has_node(u) and G.has_node(v) and G.has_node(r)",
+                    "same(s_node, v) if u == r else same(s_node, u)",
+                    "(u == r) == same(u, r)",
+                    "implies(s_node not in species_index, forall(range(n_s), lambda i: not same(_species_nodes[i], s_node)))",
+                    "forall(range(n_s), lambda i: implies(not same(_species_nodes[i], s_node), not (same(u, _species_nodes[i]) and same(v, r)) "
+                    "and not (same(u, r) and same(v, _species_nodes[i]))))"],
+                "inv": [
+                "n_s == len(_species_nodes)",
+                "forall(range(n_s), lambda i: _species_nodes[i] in species_index and species_index[_species_nodes[i]] == i and not same(_species_nodes[i], r))",
+                "r not in species_index",
+                "forall(species_index, lambda n: 0 <= species_index[n] and species_index[n] < n_s and same(_species_nodes[species_index[n]], n))",
+                "len(lhs) == n_s and len(rhs) == n_s",
+                "forall(range(n_s), lambda i: lhs[i] == (coef(G, _species_nodes[i], r, 'reactant') if (_species_nodes[i], r) in done else 0) "
+                "       + (coef(G, r, _species_nodes[i], 'reactant') if (r, _species_nodes[i]) in done else 0))",
+                "forall(range(n_s), lambda i: rhs[i] == (coef(G, _species_nodes[i], r, 'product') if (_species_nodes[i], r) in done else 0) "
+                "       + (coef(G, r, _species_nodes[i], 'product') if (r, _species_nodes[i]) in done else 0))",
+            ]},
+        },
     },
 }
